@@ -21,6 +21,37 @@ CLAIMED = {
     ),
 }
 
+CLAIMED["C17"] = dict(
+    category="proof",
+    text="Every public routine of felupe/math (41 discovered, floor 41) is evaluated from its AST on symbolic arrays whose batch items "
+    "carry distinct generators (so any mixing of batch items is visible), for all modes, tensor dimensions 1..3, broadcast "
+    "(size-one) axes, parallel on/off, out=None/dirty reused buffer, supplied determinant, symmetric shortcut, and is compared "
+    "entry-wise, as an identity of rational functions, with a reference definition written in the checker (index formulas by "
+    "brute force, Leibniz determinant, cofactors, Rodrigues rotation, spectral sums); inputs are compared before/after. Eigen "
+    "routines and the solver inside solve_nd are opaque: the axis bookkeeping around them is what is proved.",
+    design_ref="DESIGN.md section 3, C17",
+    note="Trusted: numpy semantics on object dtype (views, out=, broadcasting); numpy.linalg eigen-solvers and the injected linear "
+    "solver; einsumt == einsum for equal subscripts; the reference definitions in fverif/props/c17.py. ravel(trailing_axes != 2) "
+    "is outside the property's list of routines and not exercised.",
+    technique="algebraic value numbering of felupe.math over an exact ring; comparison of normal forms with reference definitions",
+)
+CLAIMED["C05"] = dict(
+    category="proof",
+    text="Every Scheme subclass (7 discovered) is constructed by AST evaluation for all documented (order, dim, permute) combinations "
+    "(172 instances); for every monomial of the documented degree set the quadrature sum is compared with the closed-form integral: "
+    "exactly for rational / square-root constants, within the enclosure implied by the written digits for truncated float literals "
+    "(literal = lit + ulp*eps, eps symbolic in [-1,1]), and to 1e-50 for rules built on numpy's leggauss (summarised to 70 digits). "
+    "Multi-dimensional Gauss rules: 1D exactness + tensor-product structure (complete by Fubini) + exponent-box corner monomials. "
+    "Also: points in the closed domain, boundary variants = lower rule with -1 appended, permutation = reordering, point order "
+    "agrees with the matching element's reference points.",
+    design_ref="DESIGN.md section 3, C05",
+    note="Trusted: numpy.polynomial.legendre.leggauss returns the n-point Gauss-Legendre rule; numpy meshgrid/stack/reshape on object "
+    "arrays; the documented-degree table and closed-form integrals in fverif/props/c05.py; a literal with >= 6 significant digits "
+    "is the rounding/truncation of an exact constant (1 ulp). The sphere rule is checked for even total degree <= 8 (it stores "
+    "one hemisphere with doubled weights; odd degrees vanish by antipodal symmetry of the intended integrand).",
+    technique="constant-table analysis: scheme tables extracted by AST evaluation, exact rational / interval comparison with closed-form monomial integrals",
+)
+
 NOT_APPLICABLE = {}
 
 TODO_REASON = "check not built yet in this session (static rule designed in DESIGN.md; will be claimed once its checker is committed)"
